@@ -6,11 +6,13 @@ from ..gen import mol as M
 from ..gen import annot as A
 from ..gen import grammar as G
 from ..oracles import V
+from . import molcommon as MC
 from .. import contracts
 
 PROPERTY = 'C14'
 LEVEL = 'exploration'
-RULE = ('(i) spellings: a random assignment of values to the keys reserved at that level (base graph: q,w; fragment atoms, '
+RULE = ('(shared atoms) molecules cut with [!]-shared atoms whose copies carry annotations (free keys under different names, a weight on one copy or the same weight on both): the merged atom shows everything written on any of the fragment atoms it is a copy of. '
+        '(i) spellings: a random assignment of values to the keys reserved at that level (base graph: q,w; fragment atoms, '
         'atomistic and coarse: w,x) plus 0-3 free keys is written in every positional-prefix length and several keyword '
         'orders, with numeric spellings such as +1, -0.25, 1e-1, .5; all spellings must give equal attribute dicts on the '
         'graphs returned by read_cgsmiles / read_fragments, equal to an independent model (defaults charge 0.0 / weight 1.0, '
@@ -148,6 +150,17 @@ def cases(seed, tier, shard, nshards):
             c = dict(kind='spell', level=level, spellings=all_spellings(rng, lv, res, free), expect=A.expected(lv, res, free),
                      features=sorted({'level_' + level} | {'key_' + k for k in res} | ({'free_keys'} if free else set())),
                      nkeys=len(res) + len(free))
+        elif rng.random() < 0.25:
+            # annotations on atoms that are shared between fragments ([!]): the merged atom is a copy of each of them
+            c = None
+            for _ in range(20):
+                c = MC.random_shared_case(rng, rng.choice([4, 6, 10]), ctor=rng.choice(['string', 'from_graph']), annotate=True)
+                if c is not None and c.get('atom_annotations'):
+                    break
+                c = None
+            if c is None:
+                continue
+            c = dict(c, kind='shared_annotated')
         else:
             c = e2e_case(rng)
             if c is None:
@@ -172,6 +185,19 @@ def run(case):
     from cgsmiles import MoleculeResolver
     contracts.clear()
     viol = []
+    if case['kind'] == 'shared_annotated':
+        res = MC.resolve_case(case)
+        txt = MC.case_text(case)
+        seen = 0
+        if res['error']:
+            if MC.EXPECTED_REJECTION not in res['error']:
+                viol.append(V('c14.e2e_exception.' + res['error'].split(':')[0], f'{txt} raised {res["error"]}'))
+        else:
+            found, seen = MC.check_atom_annotations(case, res['aa'], 'c14')
+            viol += [V(cl, f'{txt} :: {msg}') for cl, msg in found]
+        contracts.clear()
+        return {'violations': viol, 'nontrivial': seen > 0, 'cls': ('shared_annotated', tuple(case['features'])), 'sample': txt,
+                'counters': {'annotated_copies_checked': seen}}
     if case['kind'] == 'spell':
         exp = case['expect']
         first = None
